@@ -6,7 +6,8 @@ package main
 //   - a fake s3API that behaves like S3's multipart store (object = exactly the listed parts,
 //     strictly ascending part order, one injectable failure by call index), and
 //   - a scripted Kafka broker on a loopback TCP socket that answers the produce request with the
-//     scripted reply (error code 0, a per-partition error code, or a closed connection).
+//     scripted reply (error code 0, a positive or negative per-partition error code, a reply naming
+//     no partition, or a closed connection).
 // One ndjson line per request with the response and the projected session / bucket state.
 
 import (
@@ -212,9 +213,12 @@ func (f *vuS3) CreateBucket(context.Context, *s3.CreateBucketInput, ...func(*s3.
 
 // ---- scripted broker ------------------------------------------------------------------------
 
+// vuNoAck: the broker gave no code for the record's partition (connection closed, or a reply without it).
+const vuNoAck = 1000
+
 type vuProduced struct {
 	key  string // object key named by the envelope in the record
-	code int    // error code replied for the partition; -1 = connection closed without a reply
+	code int    // error code replied for the record's partition; vuNoAck if none
 }
 
 type vuBroker struct {
@@ -267,10 +271,18 @@ func (b *vuBroker) run() {
 			code := int16(0)
 			switch b.reply {
 			case "conn":
-				b.log = append(b.log, vuProduced{key: key, code: -1})
+				b.log = append(b.log, vuProduced{key: key, code: vuNoAck})
+				return
+			case "empty": // a well-formed reply that names no topic / partition
+				empty := kmsg.NewPtrProduceResponse()
+				empty.SetVersion(header.APIVersion)
+				b.log = append(b.log, vuProduced{key: key, code: vuNoAck})
+				_ = protocol.WriteFrame(conn, protocol.EncodeResponse(header.CorrelationID, header.APIVersion, empty))
 				return
 			case "perr":
 				code = 6 // NOT_LEADER_OR_FOLLOWER
+			case "nerr":
+				code = -1 // UNKNOWN_SERVER_ERROR
 			}
 			resp := kmsg.NewPtrProduceResponse()
 			resp.SetVersion(header.APIVersion)
@@ -431,7 +443,7 @@ func TestVerifLfsUpload(t *testing.T) {
 		}
 		// observation of the outcome of a final request (what layer O evaluates)
 		observe := func(rr *httptest.ResponseRecorder) map[string]any {
-			o := map[string]any{"objExists": false, "objSize": 0, "objSha": "", "envSize": 0, "envSha": "", "envKey": "", "ack": -1}
+			o := map[string]any{"objExists": false, "objSize": 0, "objSha": "", "envSize": 0, "envSha": "", "envKey": "", "ack": vuNoAck}
 			if rr.Code != http.StatusOK {
 				return o
 			}
@@ -551,7 +563,7 @@ func TestVerifLfsUpload(t *testing.T) {
 				line["o"] = o
 				line["shaMatch"] = o["objExists"] == true && o["objSha"] == o["envSha"]
 			} else {
-				line["o"] = map[string]any{"objExists": false, "objSize": 0, "objSha": "", "envSize": 0, "envSha": "", "envKey": "", "ack": -1}
+				line["o"] = map[string]any{"objExists": false, "objSize": 0, "objSha": "", "envSize": 0, "envSha": "", "envKey": "", "ack": vuNoAck}
 				line["shaMatch"] = false
 			}
 			// the broker's answer to a produce request received during this step (-2: none received)
